@@ -17,7 +17,8 @@ RULE = ("histories of <= 8 group operations (re-open by name, add [optionally a 
         "histories over a 12-letter alphabet x fixed scripts, a corpus of past witnesses, random plain jobs, random sampler-like jobs "
         "(job_context, delta parameters), malformed (unfilled parameters, unknown keywords, duplicate ids); every "
         "history also runs with a re-open inserted before each launch. After every operation: outcome (returned / "
-        "exception class), memory, file content, re-opened group, requests received, number of answers consumed and "
+        "exception class), memory, file content, re-opened group, the ordered sequence of requests received and of "
+        "whole-file writes, number of answers consumed and "
         "progress/list sizes are compared with the model; re-opened vs memory are compared directly. Non-trivial: "
         "at least one job launched and one operation after it; distinct by (operations, script).")
 TRUSTED = ["model: coq/Model/JobGroup.v (hand-written; tied by this correspondence stream)",
@@ -29,11 +30,11 @@ ASSUMPTIONS = ["every add uses a fresh RemoteJob object (one object added twice 
                "(fake clock); a throttled refresh is the script answer 'same status'",
                "authentication tokens contain no space (JobGroup._build_remote_job splits the header on ' ')",
                "track_progress, get_results, delete_* are not modelled"]
-EXPLANATION = ("Exact(m): the file is exactly the image of memory. Theorems (current code, any jobs): Exact holds after "
-               "every operation of every history/script unless the model's ghost flag reports a status change inside a "
-               "launch loop that no write followed; the flag is never raised by re-open/add/run_parallel/progress. "
-               "Still refuted: rerun-loop refresh, sequential wait (open finding). Repaired and kept as corpus "
-               "regression guards: job_context lost on re-open (bf317fcd), add raising after the append (13320b52).")
+EXPLANATION = ("Exact(m): the file is exactly the image of memory. Theorems (current code, any jobs, any script): Exact "
+               "holds after every operation of every history, returning or raising. Repaired and kept as corpus "
+               "regression guards: job_context lost on re-open (bf317fcd), add raising after the append (13320b52), "
+               "status refreshed inside a launch loop not written (9afb11d4: one more write on leaving the loop iff "
+               "the jobs differ from what was last written or read; the write sequence is compared with the model).")
 
 NAME_PREFIX = "c19g"
 ST = ["WAITING", "RUNNING", "SUCCESS", "ERROR", "CANCELED", "SUSPENDED", "CANCEL_REQUESTED", "UNKNOWN"]
@@ -55,7 +56,16 @@ class Env:
         self.jgm, self.rjm, self.JobGroup = jgm, rjm, JobGroup
         self.dir = tempfile.mkdtemp(prefix="c19_")
         self.saved = (JobGroup._PERSISTENT_DATA, JobGroup._DIR_PATH, jgm.time, jgm.tqdm, rjm.time)
-        pd = PersistentData(directory=self.dir)
+        env = self
+
+        class CountingData(PersistentData):
+            """The disk layer, with every whole-file write reported to the observer (in order with the HTTP requests)."""
+
+            def write_file(self, filename, data, file_format):
+                env.log.append([3])
+                return super().write_file(filename, data, file_format)
+        self.log = []
+        pd = CountingData(directory=self.dir)
         pd.create_sub_directory("job_group")
         JobGroup._PERSISTENT_DATA = pd
         JobGroup._DIR_PATH = os.path.join(self.dir, "job_group")
@@ -406,7 +416,7 @@ def evaluate(env, ops, script, model_out):
                 if r[0] == 0:
                     created.setdefault(r[1][0], r[1])
             if env.log != m_log:
-                problems.append((i, f"model-requests-{opname(o)}", f"requests received by the server differ {where}",
+                problems.append((i, f"model-requests-{opname(o)}", f"requests received by the server / writes of the file differ {where}",
                                  m_log, env.log))
                 break
             if env.consumed != m_cons:
@@ -458,8 +468,6 @@ def evaluate(env, ops, script, model_out):
                     sig = "reopened-job_context-lost"
                 elif kind == "length" and o[0] == "add" and code == 3:
                     sig = "add-raises-TypeError-after-append"
-                elif kind == "status" and o[0] in ("run", "rerun") and m_dirty:
-                    sig = "launch-loop-status-change-not-written"
                 else:
                     sig = f"reopened-differs-{kind}-after-{opname(o)}-{how}"
                 problems.append((i, sig, f"re-opening the group by name {where} ({how}) does not give the group in memory "
